@@ -503,3 +503,49 @@ def competition_summary(comp: "Competition") -> dict:
         })
     out["sites"] = sites
     return out
+
+
+def resolve_on(t: Term, key: Term, value) -> Optional[Term]:
+    """Value of a term that selects on `key == <const>` tests, for one concrete constant."""
+    while t[0] == "sel":
+        c = t[1]
+        if c[0] == "cmp" and c[1] in ("==", "!=") and key in (c[2], c[3]):
+            other = c[2] if c[3] == key else c[3]
+            if other[0] != "const":
+                return None
+            truth = (other[1] == value) if c[1] == "==" else (other[1] != value)
+            t = t[2] if truth else t[3]
+        else:
+            return None
+    return t
+
+
+def extension_dispatch(w: Walker, key: Term, values, prefix: str) -> Dict[str, str]:
+    """{extension: function name} for calls of functions of module `prefix` selected by the file extension,
+    whether written as an if/elif chain of calls, as a selected function called once, or as a dict lookup."""
+    out: Dict[str, str] = {}
+    for ev in w.events:
+        if ev.kind != "call" or ev.target is None:
+            continue
+        tgt = ev.target
+        if tgt[0] == "mod" and tgt[1].startswith(prefix + "."):
+            for f in facts_of(ev):
+                if f[0] == "cmp" and f[1] == "==" and key in (f[2], f[3]):
+                    other = f[2] if f[3] == key else f[3]
+                    if other[0] == "const":
+                        out[other[1]] = tgt[1].rsplit(".", 1)[1]
+        elif tgt[0] == "sel":
+            for v in values:
+                r = resolve_on(tgt, key, v)
+                if r is not None and r[0] == "mod" and r[1].startswith(prefix + "."):
+                    out[v] = r[1].rsplit(".", 1)[1]
+        elif tgt[0] == "idx" and tgt[1][0] == "dict" and tgt[2] == key:
+            for k, v in tgt[1][1]:
+                if k[0] == "const" and v[0] == "mod" and v[1].startswith(prefix + "."):
+                    out[k[1]] = v[1].rsplit(".", 1)[1]
+    return out
+
+
+def facts_of(ev: Event):
+    from .ir import facts
+    return facts(ev.guards)
